@@ -95,7 +95,17 @@ def main(argv: list[str]) -> int:
                 + "\n"
             )
             return 0
+        if job["mode"] == "pins":
+            for pin in job["pins"]:
+                res, el = run_one(family, pin["case"])
+                out.write(
+                    json.dumps({"family": family.name, "index": -1, "pin": pin["ref"], "case": pin["case"], "result": res.to_json(), "elapsed": el}, default=str)
+                    + "\n"
+                )
+                out.flush()
+            return 0
         n_samples = job.get("samples", 0)
+        no_shrink = {tuple(k) for k in job.get("no_shrink_keys", [])}
         for idx in range(job["start"], job["end"]):
             rng = case_rng(job["seed"], job["pid"], family.name, idx)
             try:
@@ -108,8 +118,8 @@ def main(argv: list[str]) -> int:
                 continue
             res, el = run_one(family, case)
             shrunk = None
-            if res.violations and family.shrink is not None:
-                key = res.violations[0].key()
+            if res.violations and family.shrink is not None and not all(v.key() in no_shrink for v in res.violations):
+                key = next(v.key() for v in res.violations if v.key() not in no_shrink)
 
                 def still_fails(c, key=key):
                     r, _ = run_one(family, c)
